@@ -2,6 +2,7 @@
 package c15
 
 import (
+	"net"
 	"encoding/json"
 	"fmt"
 	"net/netip"
@@ -413,7 +414,7 @@ func genOtherNotation(t *rapid.T) string {
 		fmt.Sprintf("2002:%x:%x::1", hi, lo), "::1", "::", "fe80::1", "fe80::1%eth0", fmt.Sprintf("2001:db8::%x", lo),
 		fmt.Sprintf("%d", v), fmt.Sprintf("0x%08x", v), fmt.Sprintf("0%o", v), fmt.Sprintf("%d.%d.%d", a, b, c<<8|d), fmt.Sprintf("%d.%d", a, v&0xffffff), fmt.Sprintf("%d.%d.%d", a, b, c),
 		fmt.Sprintf("0x%x.0x%x.0x%x.0x%x", a, b, c, d), fmt.Sprintf("%d.%d.%d.+%d", a, b, c, d), fmt.Sprintf("%d.-%d.%d.%d", a, b, c, d), fmt.Sprintf("%d,%d,%d,%d", a, b, c, d), fmt.Sprintf("%d.%d.%d.", a, b, c),
-		fmt.Sprintf("%d %d %d %d", a, b, c, d), fmt.Sprintf("%d.%d.%d.\u0664", a, b, c), "\uff11.\uff12.\uff13.\uff14", "localhost", "controller.local", "any", "", " ", "*", "udp", "0"}).Draw(t, "host")
+		fmt.Sprintf("%d %d %d %d", a, b, c, d), fmt.Sprintf("%d.%d.%d.\u0664", a, b, c), "\uff11.\uff12.\uff13.\uff14", "localhost", "controller.local", "any", "", " ", "*", "udp", "0", "lo", "lo0", "eth0", "en0", "wlan0", "docker0", "ens3", localInterface(0), localInterface(1), localInterface(2)}).Draw(t, "host")
 	switch rapid.IntRange(0, 3).Draw(t, "form") {
 	case 0:
 		return host
@@ -423,6 +424,15 @@ func genOtherNotation(t *rapid.T) string {
 		return host + ":" + rapid.SampledFrom([]string{"0", "1", "60000", "60001", "65535"}).Draw(t, "port")
 	}
 	return "[" + host + "]"
+}
+
+// localInterface returns the name of the i-th network interface of this host ("lo" when there are fewer)
+func localInterface(i int) string {
+	ifs, err := net.Interfaces()
+	if err != nil || len(ifs) == 0 {
+		return "lo"
+	}
+	return ifs[i%len(ifs)].Name
 }
 
 func genCase(t *rapid.T) aCase {
@@ -445,6 +455,13 @@ func genCase(t *rapid.T) aCase {
 			b := []byte(s)
 			pos := rapid.IntRange(0, len(b)).Draw(t, "pos")
 			ch := rapid.SampledFrom([]byte("0123456789.: -+x/[]%\t\x00")).Draw(t, "ch")
+			if rapid.IntRange(0, 5).Draw(t, "invisible") == 0 {
+				// characters that a 'cleaning' or normalising step may drop or fold: zero-width and format characters, no-break
+				// and ideographic spaces, the full stops that IDNA maps to '.', fullwidth digits
+				ins := rapid.SampledFrom([]string{"\u200b", "\ufeff", "\u00ad", "\u200d", "\u2060", "\u200e", "\u202c", "\u00a0", "\u3000", "\u3002", "\uff0e", "\uff61", "\uff11", "\u0661", "\u2024", "\u180e", "\r", "\n", "\v"}).Draw(t, "invisible.ch")
+				s = string(b[:pos]) + ins + string(b[pos:])
+				continue
+			}
 			switch rapid.IntRange(0, 2).Draw(t, "kind") {
 			case 0:
 				b = append(b[:pos], append([]byte{ch}, b[pos:]...)...)
